@@ -10,6 +10,7 @@ import (
 	"encoding/json"
 	"fmt"
 	"math/big"
+	"os"
 	"sort"
 	"strings"
 	"time"
@@ -23,6 +24,7 @@ import (
 	"github.com/tendermint/tendermint/version"
 	dbm "github.com/tendermint/tm-db"
 
+	"github.com/cosmos/cosmos-sdk/baseapp"
 	"github.com/cosmos/cosmos-sdk/client"
 	codectypes "github.com/cosmos/cosmos-sdk/codec/types"
 	cryptocodec "github.com/cosmos/cosmos-sdk/crypto/codec"
@@ -34,6 +36,7 @@ import (
 	authtypes "github.com/cosmos/cosmos-sdk/x/auth/types"
 	banktypes "github.com/cosmos/cosmos-sdk/x/bank/types"
 	govtypes "github.com/cosmos/cosmos-sdk/x/gov/types"
+	slashingtypes "github.com/cosmos/cosmos-sdk/x/slashing/types"
 	stakingtypes "github.com/cosmos/cosmos-sdk/x/staking/types"
 
 	"github.com/ethereum/go-ethereum/common"
@@ -49,6 +52,7 @@ import (
 	endpointcontract "github.com/teleport-network/teleport/syscontracts/xibc_endpoint"
 	packetcontract "github.com/teleport-network/teleport/syscontracts/xibc_packet"
 	teletypes "github.com/teleport-network/teleport/types"
+	rvtypes "github.com/teleport-network/teleport/x/rvesting/types"
 	xibctmtypes "github.com/teleport-network/teleport/x/xibc/clients/light-clients/tendermint/types"
 	clienttypes "github.com/teleport-network/teleport/x/xibc/core/client/types"
 	commitmenttypes "github.com/teleport-network/teleport/x/xibc/core/commitment/types"
@@ -127,7 +131,11 @@ func newApp() *app.Teleport {
 	sdk.DefaultPowerReduction = teletypes.PowerReduction
 	db := dbm.NewMemDB()
 	encCdc := encoding.MakeConfig(app.ModuleBasics)
-	return app.NewTeleport(log.NewNopLogger(), db, nil, true, map[int64]bool{}, "/nonexistent-teleport-home", 5, encCdc, simapp.EmptyAppOptions{})
+	var opts []func(*baseapp.BaseApp)
+	if os.Getenv("C14_DEBUG") != "" {
+		opts = append(opts, baseapp.SetTrace(true))
+	}
+	return app.NewTeleport(log.NewNopLogger(), db, nil, true, map[int64]bool{}, "/nonexistent-teleport-home", 5, encCdc, simapp.EmptyAppOptions{}, opts...)
 }
 
 // Exec applies one operation to the application and returns the observation. cur is the header of the block
@@ -166,7 +174,7 @@ func Exec(a *app.Teleport, op Op, cur *tmproto.Header) (o Obs, evs []abci.Event)
 		o.Log = h256([]byte(res.Log))
 		if res.Code != 0 {
 			o.LogText = res.Log
-			if len(o.LogText) > 160 {
+			if len(o.LogText) > 160 && os.Getenv("C14_DEBUG") == "" {
 				o.LogText = o.LogText[:160]
 			}
 		}
@@ -310,8 +318,14 @@ func keyFrom(r *hlib.Rand) *ethsecp256k1.PrivKey {
 // NewChain builds the genesis (as x/xibc/testing.SetupWithGenesisValSet does, with the native chain name in
 // the xibc genesis, a 30 s governance voting period and larger balances), records InitChain and block 1.
 func NewChain(r *hlib.Rand, chainID string, nVals int) *Chain {
+	return NewChainAt(r, chainID, nVals, startTime, nil)
+}
+
+// NewChainAt: key (optional) is the funded account / relayer; the two chains of a pair share it, as the chains of
+// x/xibc/testing.Coordinator do (the relayer registry matches acknowledgement relayers by address string).
+func NewChainAt(r *hlib.Rand, chainID string, nVals int, start time.Time, key *ethsecp256k1.PrivKey) *Chain {
 	sdk.DefaultPowerReduction = teletypes.PowerReduction
-	c := &Chain{ChainID: chainID, Rand: r, Time: startTime, Tags: map[string]int{}}
+	c := &Chain{ChainID: chainID, Rand: r, Time: start, Tags: map[string]int{}}
 	c.App = newApp()
 	c.TxCfg = encoding.MakeConfig(app.ModuleBasics).TxConfig
 	var vals []*tmtypes.Validator
@@ -329,6 +343,9 @@ func NewChain(r *hlib.Rand, chainID string, nVals int) *Chain {
 	}
 	c.ValAddr = sdk.ValAddress(c.Vals.Validators[0].Address)
 	c.Key, c.Key2 = keyFrom(r), keyFrom(r)
+	if key != nil {
+		c.Key = key
+	}
 	c.Acc, c.Acc2 = sdk.AccAddress(c.Key.PubKey().Address()), sdk.AccAddress(c.Key2.PubKey().Address())
 	c.Addr, c.Addr2 = common.BytesToAddress(c.Acc), common.BytesToAddress(c.Acc2)
 
@@ -355,6 +372,13 @@ func NewChain(r *hlib.Rand, chainID string, nVals int) *Chain {
 		delegations = append(delegations, stakingtypes.NewDelegation(c.Acc, val.Address.Bytes(), sdk.OneDec()))
 	}
 	gs[stakingtypes.ModuleName] = cdc.MustMarshalJSON(stakingtypes.NewGenesisState(stakingtypes.DefaultParams(), validators, delegations))
+	// signing infos, so that BeginBlock can be given the votes of the previous block (slashing + distribution run as on a live chain)
+	var infos []slashingtypes.SigningInfo
+	for _, val := range c.Vals.Validators {
+		ca := sdk.ConsAddress(val.Address)
+		infos = append(infos, slashingtypes.SigningInfo{Address: ca.String(), ValidatorSigningInfo: slashingtypes.NewValidatorSigningInfo(ca, 0, 0, time.Unix(0, 0).UTC(), false, 0)})
+	}
+	gs[slashingtypes.ModuleName] = cdc.MustMarshalJSON(slashingtypes.NewGenesisState(slashingtypes.DefaultParams(), infos, nil))
 
 	evmGen := evmtypes.DefaultGenesisState()
 	evmGen.Params.EvmDenom = bondDenom
@@ -363,6 +387,9 @@ func NewChain(r *hlib.Rand, chainID string, nVals int) *Chain {
 	big1e27, _ := sdk.NewIntFromString("1000000000000000000000000000")
 	bal := sdk.NewCoins(sdk.NewCoin(bondDenom, big1e27), sdk.NewCoin("ufoo", sdk.NewInt(1_000_000_000)))
 	balances := []banktypes.Balance{{Address: c.Acc.String(), Coins: bal}, {Address: c.Acc2.String(), Coins: bal}}
+	// the reward-vesting pool is funded at genesis (module accounts are blocked addresses afterwards); small, so it runs dry
+	balances = append(balances, banktypes.Balance{Address: authtypes.NewModuleAddress(rvtypes.ModuleName).String(),
+		Coins: sdk.NewCoins(sdk.NewCoin(bondDenom, sdk.NewInt(int64(100+r.Intn(400)))), sdk.NewCoin("ufoo", sdk.NewInt(7)))})
 	total := sdk.NewCoins()
 	for _, b := range balances {
 		total = total.Add(b.Coins...)
@@ -388,7 +415,7 @@ func NewChain(r *hlib.Rand, chainID string, nVals int) *Chain {
 
 	stateBytes, err := json.Marshal(gs)
 	must(err)
-	req := abci.RequestInitChain{Time: startTime, ChainId: chainID, ConsensusParams: app.DefaultConsensusParams,
+	req := abci.RequestInitChain{Time: start, ChainId: chainID, ConsensusParams: app.DefaultConsensusParams,
 		Validators: []abci.ValidatorUpdate{}, AppStateBytes: stateBytes, InitialHeight: 1}
 	bz, err := req.Marshal()
 	must(err)
@@ -440,7 +467,8 @@ func (c *Chain) EndCommit() {
 	c.Time = c.Time.Add(5 * time.Second)
 }
 
-func (c *Chain) Ctx() sdk.Context { return c.App.BaseApp.NewContext(false, c.Cur) }
+// Ctx: a context for READING the generator's chain — the deliver state inside a block, the committed state between blocks.
+func (c *Chain) Ctx() sdk.Context { return c.App.BaseApp.NewContext(!c.inBlock, c.Cur) }
 
 func (c *Chain) OOB(kind string, args ...[]byte) Obs {
 	c.Begin()
